@@ -1,7 +1,7 @@
 (** C07 proofs, part 5: the weighted strategy with the draws computed from the seed
     (RNG_Model) is the oracle model under an oracle that is in range: the premise
     [oracle_guard] of [gen_total] / [gen_items] is discharged by RNG_Proofs. *)
-From TU Require Import RNG_Model RNG_Proofs.
+From TU Require Import RNG_Model RNG_Proofs RNG_Check.
 From TU Require Import Base C07_Model C07_Proofs C07_Specs C07_Top C07_Weighted.
 Require Import Lia ZifyN.
 
@@ -210,4 +210,15 @@ Proof.
     cbn [res_v shape_ctor_err shape_ok v_nth nth]. rewrite v_list_list_v.
     assert (Hti : is_ti item_eqb srcs out = true) by (apply is_ti_iff_l; auto).
     rewrite Hti. unfold v_bool, v_nat, nat_v. cbn [v_z]. rewrite Nat2Z.id, Nat.eqb_refl. reflexivity.
+Qed.
+
+(** ... and of the rng scripts *)
+Lemma check_run_rng_l : forall v, is_rng_case v = true -> Forall RNG_Check.call_ok (v_script v) ->
+  ~ In RNG_Model.v_fuel (fst (RNG_Model.run_calls (v_script v) (RNG_Model.seed_from_u64 (RNG_Model.v_hl (v_nth 1 v))))) ->
+  check_C07s v (run_C07s v) = true.
+Proof.
+  intros v Hr Hok Hnf. unfold check_C07s, run_C07s. rewrite Hr. unfold run_rng, RNG_Model.run_script, check_rng.
+  destruct (RNG_Model.run_calls (v_script v) _) as [vs st] eqn:E. cbn [fst] in Hnf.
+  destruct (RNG_Model.get_word_pos st) as [b off]. unfold n_v, nat_v.
+  apply (RNG_Check.check_calls_run_l _ _ _ _ (RNG_Proofs.wf_seed _) Hok E Hnf).
 Qed.
